@@ -242,6 +242,16 @@ func (rn *runner) runReader(e *RealEnd, tc *TaskCfg, t *Task) {
 	if len(tc.R) == 0 {
 		tc.R = []ROp{{Kind: "rm"}}
 	}
+	// one scratch buffer for all read calls (the harness must not dominate the allocation count)
+	maxSize := 512
+	for _, op := range tc.R {
+		for _, n := range op.Sizes {
+			if n > maxSize {
+				maxSize = n
+			}
+		}
+	}
+	scratch := make([]byte, maxSize+1)
 	for i := 0; ; i++ {
 		if tc.MaxMsgs > 0 && msgs >= tc.MaxMsgs {
 			return
@@ -300,7 +310,7 @@ func (rn *runner) runReader(e *RealEnd, tc *TaskCfg, t *Task) {
 			var all []byte
 			var err error
 			for k := 0; ; k++ {
-				buf := make([]byte, size(op, k)+1)
+				buf := scratch[:size(op, k)+1]
 				var n int
 				n, err = jr.Read(buf)
 				all = append(all, buf[:n]...)
@@ -337,7 +347,7 @@ func (rn *runner) runReader(e *RealEnd, tc *TaskCfg, t *Task) {
 				if op.Abandon > 0 && n > op.Abandon-len(all) {
 					n = op.Abandon - len(all)
 				}
-				buf := make([]byte, n)
+				buf := scratch[:n]
 				got, err := rd.Read(buf)
 				calls++
 				if got > 0 && n == 0 {
